@@ -55,6 +55,7 @@ class Comp:
     created: tuple = ()  # context keys the processor itself declares
     suppressed: tuple = ()
     fault: Optional[str] = None
+    updates: tuple = ()  # keys inside the processor's write whitelist that it does NOT declare as created (rewrites of existing keys)
 
 
 def _req_float(x):
@@ -100,6 +101,17 @@ def _hooked(d, w, hk_scale=2.0):
 
 # components that advertise the legacy get_required_keys() hook (the SER pre-check lists these keys as expected)
 HOOK_REQUIRED = {"VHookedCtx": ["hk_scale"]}
+
+
+def _tally(d, w, tally=0.0):
+    w("note", d)
+    w("tally", tally + 1.0)
+    return d + 1.0
+
+
+def _remember(d, w, weights):
+    w("weights", list(weights) + [d])
+    return d
 
 
 def _addnote(d, w, addend=1.0):
@@ -225,6 +237,9 @@ _c("VInPlaceMul", "op", "Float", "Float", [("factor", 2.0)], lambda d, w, factor
 _c("VCollBumpLast", "op", "Coll", "Coll", [], lambda d, w: (list(d[:-1]) + [d[-1] + 1.0]) if d else [])
 _c("VPoly", "op", "Float", "Float", [("p", REQ), ("q", REQ), ("r", REQ), ("s", 0.0)], lambda d, w, p, q, r, s=0.0: p * d + q + r + s)
 _c("VAddNote", "op", "Float", "Float", [("addend", 1.0)], _addnote, created=("note",))
+_c("VWeightedScale", "op", "Float", "Float", [("weights", REQ), ("offset", 0.0)], lambda d, w, weights, offset=0.0: d * float(sum(weights)) + offset)
+_c("VRemember", "op", "Float", "Float", [("weights", REQ)], _remember, created=("weights",))
+_c("VTally", "op", "Float", "Float", [("tally", 0.0)], _tally, created=("note",), updates=("tally",))
 _c("VCollSum", "op", "Coll", "Float", [("offset", 0.0)], lambda d, w, offset=0.0: float(sum(d)) + offset)
 _c("FloatSquareOperation", "op", "Float", "Float", [], lambda d, w: d ** 2, recorded=False)
 _c("FloatMultiplyOperation", "op", "Float", "Float", [("factor", REQ)], lambda d, w, factor: d * factor, recorded=False)
@@ -658,7 +673,7 @@ def run_pipeline(nodes: list, data: Any = NODATA, ctx: Optional[dict] = None, *,
                     out_data = results
             else:
                 comp = nm.comp
-                w = writer(set(comp.created))
+                w = writer(set(comp.created) | set(comp.updates))
                 if nm.role == "psource":
                     local: dict = {}
 
